@@ -715,6 +715,16 @@ func (st *state) applyDefaults(instancep reflect.Value, schema *Schema) (err err
 				return fmt.Errorf("map key type %s is not a string", kt)
 			}
 		}
+		// setMapIndex stores into the map, allocating it first if it is nil:
+		// a nil map is an empty JSON object.
+		setMapIndex := func(key, val reflect.Value) {
+			if instance.IsNil() {
+				m := reflect.MakeMap(instance.Type())
+				instancep.Elem().Set(m)
+				instance = m
+			}
+			instance.SetMapIndex(key, val)
+		}
 		for prop, subschema := range schema.Properties {
 			// Ignore defaults on required properties. (A required property shouldn't have a default.)
 			if schemaInfo.isRequired[prop] {
@@ -735,7 +745,7 @@ func (st *state) applyDefaults(instancep reflect.Value, schema *Schema) (err err
 					if err := st.applyDefaults(lvalue, subschema); err != nil {
 						return err
 					}
-					instance.SetMapIndex(mapKey(instance, prop), lvalue.Elem())
+					setMapIndex(mapKey(instance, prop), lvalue.Elem())
 				} else if val.IsValid() {
 					// Recurse into an existing sub-instance.
 					// MapIndex returns a non-addressable value; copy into an addressable lvalue, recurse, then set back.
@@ -745,7 +755,7 @@ func (st *state) applyDefaults(instancep reflect.Value, schema *Schema) (err err
 					if err := st.applyDefaults(lvalue, subschema); err != nil {
 						return err
 					}
-					instance.SetMapIndex(mapKey(instance, prop), lvalue.Elem())
+					setMapIndex(mapKey(instance, prop), lvalue.Elem())
 				} else if schemaHasDefaultsInProperties(subschema) {
 					// Property is missing, but descendants still have some defaults
 					// Create an empty container and recurse to populate
@@ -765,7 +775,7 @@ func (st *state) applyDefaults(instancep reflect.Value, schema *Schema) (err err
 						if err := st.applyDefaults(lvalue, subschema); err != nil {
 							return err
 						}
-						instance.SetMapIndex(mapKey(instance, prop), lvalue.Elem())
+						setMapIndex(mapKey(instance, prop), lvalue.Elem())
 					}
 				}
 			case reflect.Struct:
